@@ -88,11 +88,12 @@ func decodeVia(kind string, file []byte, exp *refsmf.File) (diff string, track i
 	}
 	if kind == "ReadFile" {
 		// the convenience function on a regular file
-		path := os.Getenv("VERIF_WORK") + "/c02-readfile.mid"
+		path := fmt.Sprintf("%s/c02-readfile-%d.mid", os.Getenv("VERIF_WORK"), os.Getpid())
 		if werr := os.WriteFile(path, file, 0o644); werr != nil {
 			return "", 0, "", c
 		}
 		c = engine.Catch(func() { got, err = smf.ReadFile(path) })
+		os.Remove(path)
 	} else {
 		c = engine.Catch(func() { got, err = smf.ReadFrom(src, opts...) })
 	}
@@ -386,7 +387,8 @@ func main() {
 	})
 	ctx.Jobs("manytracks", 1, func(int) { manyTracks() })
 	ctx.Jobs("huge-alien", 1, func(int) { hugeAlien() })
-	ctx.Jobs("value-sweeps", 1, func(int) { valueSweeps() })
+	ctx.Jobs("big-and-many", 2, func(j int) { bigAndMany(j) })
+	ctx.Jobs("value-sweeps", 8, func(j int) { valueSweeps(j, 8) })
 	ctx.Jobs("two-readers", 1, func(int) { twoReaders() })
 	ctx.Sample(map[string]interface{}{"file": "MThd fmt1 2 tracks div 96 | XFIH(5) | MTrk: 0:NoteOn0 128:NoteOn0~ 0:EOT | MTrk filler", "meaning": "alien chunk before the first track, running status"})
 	ctx.Set("token_alphabet", len(tokens))
@@ -397,11 +399,14 @@ func main() {
 
 // valueSweeps: every channel status (explicit and under running status) and
 // every meta type, in a plain file and in a two-track file.
-func valueSweeps() {
+func valueSweeps(part, parts int) {
 	shapes := []smfgen.Shape{smfgen.BaseShape(), {Name: "fmt1/2trk/seq@0", Format: 1, NTracks: 2, Division: 480, SeqTrack: 0},
 		{Name: "fmt1/2trk/seq@0/alien", Format: 1, NTracks: 2, Division: 480, SeqTrack: 0, Aliens: []smfgen.Alien{{Before: 1, Type: "XFIH", Body: []byte{1, 2, 3}}}}}
 	sweep := func(kind string, bodies [][]byte, evs [][]refsmf.Event) {
 		for i := range bodies {
+			if i%parts != part {
+				continue
+			}
 			for _, sh := range shapes {
 				file, exp := smfgen.File(sh, bodies[i], evs[i])
 				ctx.Eval()
@@ -467,6 +472,9 @@ func valueSweeps() {
 	sweep("bursts", b, e)
 	b, e = smfgen.MagicSpelling()
 	sweep("magic-spelling", b, e)
+	if part != 0 {
+		return
+	}
 	files, exps, names := smfgen.EOTEncodings()
 	for i, file := range files {
 		ctx.Eval()
@@ -637,8 +645,99 @@ func manyTracks() {
 	}
 }
 
+// bigAndMany: track chunks around one megabyte next to small ones in every
+// order (a reader that treats long chunks differently changes its ways in the
+// middle of a file), and unknown chunks by the hundred spread over a file of
+// several tracks (whatever counts them counts over the whole file).
+func bigAndMany(part int) {
+	nth := 0
+	judge := func(name string, file []byte) {
+		nth++
+		if nth%2 != part {
+			return
+		}
+		ctx.Eval()
+		ctx.Add("big_and_many_files", 1)
+		exp, err := refsmf.Parse(file, refsmf.Tolerant)
+		if err != nil {
+			ctx.Guard(false, "big-and-many %s: reference decoder rejects the file: %v", name, err)
+			return
+		}
+		diff, _, what, c := decode(file, exp)
+		for _, k := range sourceKinds {
+			if len(file) > 500000 && k != "plain" {
+				continue
+			}
+			if diff == "" {
+				diff, _, what, c = decodeVia(k, file, exp)
+				if diff != "" {
+					what = "via " + k + ": " + what
+				}
+			}
+		}
+		if diff != "" {
+			sig := "decode:" + diff + ":" + name
+			if diff == "panic" {
+				sig = c.Sig + ":" + name
+			}
+			if ctx.SigCount(sig) < 3 {
+				ctx.Violation(sig, map[string]interface{}{"kind": "big-and-many", "name": name, "what": what})
+			}
+		}
+	}
+	track := func(size int, ch byte) []byte {
+		// a track chunk whose body is size bytes long: a note, a sysex that fills it up, a note
+		head := []byte{0x00, 0x90 | ch, 0x3C, 0x40, 0x01, 0xF0}
+		tail := []byte{0x02, 0x80 | ch, 0x3C, 0x00, 0x00, 0xFF, 0x2F, 0x00}
+		pl := size - len(head) - len(tail) - 3
+		if pl < 1 {
+			return refsmf.Chunk("MTrk", append(append([]byte{}, head[:4]...), tail...))
+		}
+		for len(refsmf.VLQ(uint32(pl)))+pl+len(head)+len(tail) > size {
+			pl--
+		}
+		body := append(append([]byte{}, head...), refsmf.VLQ(uint32(pl))...)
+		for i := 0; i < pl-1; i++ {
+			body = append(body, byte(i*7)&0x7F)
+		}
+		body = append(body, 0xF7)
+		body = append(body, tail...)
+		return refsmf.Chunk("MTrk", body)
+	}
+	const mib = 1 << 20
+	for _, sizes := range [][]int{{40, mib + 1}, {mib + 1, 40}, {40, mib + 1, 40}, {mib, mib + 1}, {mib - 1, mib, mib + 1, 40}, {70000, 40, 70000}, {65536, 65537, 65535}} {
+		file := refsmf.Header(1, uint16(len(sizes)), 480)
+		for i, sz := range sizes {
+			file = append(file, track(sz, byte(i))...)
+		}
+		judge(fmt.Sprintf("track-sizes-%v", sizes), file)
+	}
+	for _, total := range []int{63, 64, 65, 66, 127, 128, 129, 255, 256, 257, 1000, 5000} {
+		for _, ntr := range []int{1, 4} {
+			file := refsmf.Header(1, uint16(ntr), 96)
+			per := total / ntr
+			for t := 0; t < ntr; t++ {
+				n := per
+				if t == ntr-1 {
+					n = total - per*(ntr-1)
+				}
+				for i := 0; i < n; i++ {
+					file = append(file, refsmf.Chunk([]string{"XFIH", "junk", "MThd"}[i%3], []byte{byte(i), byte(t)}[:i%3])...)
+				}
+				file = append(file, refsmf.Chunk("MTrk", []byte{0x00, 0x90 | byte(t), 0x3C, 0x40, 0x05, 0x3C, 0x00, 0x00, 0xFF, 0x2F, 0x00})...)
+			}
+			judge(fmt.Sprintf("%d-unknown-chunks-over-%d-tracks", total, ntr), file)
+		}
+	}
+}
+
 func replay() {
 	m := ctx.LoadReplay()
+	if m["kind"] == "big-and-many" {
+		bigAndMany(0)
+		bigAndMany(1)
+		ctx.Finish("replay")
+	}
 	if m["kind"] == "huge-alien" {
 		hugeAlien()
 		ctx.Finish("replay")
